@@ -1063,15 +1063,17 @@ theorem step_attrClearRev (sch : Schema) (o : ObjId) (a : AttrId) (st : St) : St
     split
     · exact Step.refl _ _
     · split
-      · dsimp only
-        split
-        · exact Step.refl _ _
-        · split
-          · exact step_refWrite _ _ _ _ _ ho
-          · split
-            · exact (step_refWrite _ _ _ _ _ ho).trans (step_reverseRemove _ _ _ _)
-            · exact step_refWrite _ _ _ _ _ ho
       · exact Step.refl _ _
+      · split
+        · dsimp only
+          split
+          · exact Step.refl _ _
+          · split
+            · exact step_refWrite _ _ _ _ _ ho
+            · split
+              · exact (step_refWrite _ _ _ _ _ ho).trans (step_reverseRemove _ _ _ _)
+              · exact step_refWrite _ _ _ _ _ ho
+        · exact Step.refl _ _
 
 theorem step_attrSetRev (sch : Schema) (o : ObjId) (a : AttrId) (x : ObjId) (st : St) : Step s0 st (attrSetRev sch o a x st).st := by
   unfold attrSetRev
@@ -1082,19 +1084,21 @@ theorem step_attrSetRev (sch : Schema) (o : ObjId) (a : AttrId) (x : ObjId) (st 
     split
     · exact Step.refl _ _
     · split
-      · dsimp only
-        split
-        · exact step_refWrite _ _ _ _ _ ho
-        · split
+      · exact Step.refl _ _
+      · split
+        · dsimp only
+          split
           · exact step_refWrite _ _ _ _ _ ho
           · split
-            · exact (step_refWrite _ _ _ _ _ ho).trans (step_reverseRemove _ _ _ _)
+            · exact step_refWrite _ _ _ _ _ ho
             · split
-              · exact step_refWrite _ _ _ _ _ ho
+              · exact (step_refWrite _ _ _ _ _ ho).trans (step_reverseRemove _ _ _ _)
               · split
                 · exact step_refWrite _ _ _ _ _ ho
-                · exact (step_refWrite _ _ _ _ _ ho).trans (step_attrClearRev _ _ _ _)
-      · exact Step.refl _ _
+                · split
+                  · exact step_refWrite _ _ _ _ _ ho
+                  · exact (step_refWrite _ _ _ _ _ ho).trans (step_attrClearRev _ _ _ _)
+        · exact Step.refl _ _
 
 theorem rewriteSet_shape (s : Store) (o : ObjId) (c : AttrId) (new toAdd toRemove : ObjId → Bool) :
     ∃ (A R : ObjId → Bool) (N : Int), rewriteSet s o c new toAdd toRemove =
